@@ -354,6 +354,19 @@ class AnsiString:
                 # Re-add directly above the new settings so that settings which start here stay on top of them
                 self._fmts[start].add[len(ansi_settings):len(ansi_settings)] = remove_and_add_settings
 
+        if topmost:
+            # Settings which are stopped and restarted inside the range (same object in rem and add of one index, left
+            # behind by topmost=False or remove_formatting) would end up above the new settings from there on.
+            # Restart the new settings as well, directly above the restarted ones.
+            for idx in [i for i in self._fmts if start < i < end]:
+                point = self._fmts[idx]
+                restarted = [
+                    i for i, s in enumerate(point.add) if __class__._find_setting_reference(s, point.rem) >= 0
+                ]
+                if restarted:
+                    point.rem.extend(ansi_settings)
+                    point.add[restarted[-1] + 1:restarted[-1] + 1] = ansi_settings
+
         # Remove settings
         if end not in self._fmts:
             self._fmts[end] = _AnsiSettingPoint()
